@@ -180,6 +180,7 @@ class Contract:
     aliases: Callable[[Any], dict] | None = None          # {"self.f": value}: fields that hold exactly this (identical) object/value afterwards
     lists: Callable[[Any], list] | None = None            # structural post-state of row lists, by case (see engine.apply_list_cases)
     lists_on_raise: Callable[[Any], list] | None = None
+    silent: Callable[[Any], bool] | None = None          # generators: when true for the arguments, the generator yields nothing at all (proved on the body; consumers record no yields)
     yields: Any = None            # generator functions: Sort of the items a consumer receives (consumer loops see an abstract iterable of them)
     linear: bool = False          # the Optional[message] result is a resource: whoever obtains one must yield/return it (frames are never dropped)
     yields_linear: bool = False   # generator body: every linear resource obtained on a path has been yielded when the iteration/generator ends
@@ -246,6 +247,7 @@ def contract(key: str, serves: list[str] | None = None, trusted: bool = False, i
             aliases=_fn(cls, "aliases"),
             lists=_fn(cls, "lists"),
             lists_on_raise=_fn(cls, "lists_on_raise"),
+            silent=_fn(cls, "silent"),
             yields=cls.__dict__.get("yields"),
             linear=bool(cls.__dict__.get("linear", False)),
             yields_linear=bool(cls.__dict__.get("yields_linear", False)),
@@ -307,6 +309,7 @@ class LoopSpec:
     invariant: Callable[[Any], dict[str, Any]] | None = None
     appends: dict[str, Any] = field(default_factory=dict)   # list local -> Sort of the one element each iteration appends
     after_each: Callable[[Any], dict[str, Any]] | None = None   # invariant loops: holds at the end of every iteration (proved there, not assumed at the head)
+    silent: Callable[[Any], bool] | None = None     # invariant loops in generators: when true (decided at the loop head) no iteration yields anything (proved per iteration; no opaque-yields marker is recorded)
     elem: Any = None      # invariant loops over a row list of unknown length: Sort of one element
     local_sorts: dict[str, Any] = field(default_factory=dict)   # invariant loops: Sort of a havoced local whose value changes kind (None -> object)
     extends: list[str] = field(default_factory=list)        # invariant loops: row lists that only ever grow (old items + unknown rest)
